@@ -28,7 +28,7 @@ def jobs(tier, ctx):
             # (the symbolic classes need up to 14 GB: thorough runs them for lengths 0 and 2 only, two at a time)
             for (tag, d) in ([c for c in vm.index_classes(ln, rev) if c[0].startswith('pos')] + probes if (tier == 'quick' or ln in (1, 3)) else vm.index_classes(ln, rev) + probes[:2]):
                 j = vm.step_job(ctx, 'indexref', op, ['NUM', 'ARRM'], oracle=['INDEXREF'], extra_defs=['LENK1=%d' % ln, 'INDEXREF_REVERSE=%d' % rev] + d, tag='len%d.%s' % (ln, tag), typed_arrays=8,
-                                mem=(20 if tag in ('below', 'above') else 4), timeout=(1500 if tag in ('below', 'above') else 300))
+                                mem=(14 if tag in ('below', 'above') else 4), timeout=(1500 if tag in ('below', 'above') else 300))
                 if j:
                     j['opt_witness'] = j['opt_witness'] + ['index_in_range', 'index_out_of_range']
                     out.append(j)
